@@ -1195,6 +1195,14 @@ def search(ctx, disagreements, proof_info):
     n1, bad = oracle_expressions(rng, 3000)
     if bad is None:
         n2, bad = oracle_modules(rng, 150, 40)
+    if bad is None:
+        for name, mk in memory_builders("thorough"):
+            try:
+                n3, bad, status = run_memory_case(rng, name, mk, 1500)
+            except Exception as ex:
+                bad = {"oracle": "golden-module (memory)", "module": name, "error": repr(ex)[:300]}
+            if bad is not None:
+                break
     if bad is not None:
         return bad
     for d in disagreements:
